@@ -24,11 +24,16 @@ EXTENDS Integers, Sequences, FiniteSets, TLC
 CONSTANTS N,            \* number of atoms
           Scenarios,    \* set of [custom, htype, cls: [pair -> class], mask: SUBSET 1..N, slmEnd, T: times, backend]
           Variant,      \* "code", or a seeded mutant of the mechanism used as a self-test of the requirement:
-                        \* "cut_le" (cutoff with <=), "slm_le" (callable with <=), "rows" (mask rows only)
+                        \* "cut_le" (cutoff with <=), "slm_le" (callable with <=), "rows" (mask rows only),
+                        \* "cache_first" (the register matrix of the first noise trajectory is kept and reused for the
+                        \* later ones: with register noise every trajectory has its own, shaken, register)
           LogResult
 
-VARIABLES sc, pc, full, masked, k, used, tq2
-vars == <<sc, pc, full, masked, k, used, tq2>>
+VARIABLES sc, pc, full, masked, k, used, tq2,
+          traj,         \* noise trajectory being prepared / run (1..NTraj); register entries of trajectory 2 carry the tag "r2"
+          cache         \* "cache_first" only: the register matrix remembered from an earlier trajectory (NoMatrix = none)
+vars == <<sc, pc, full, masked, k, used, tq2, traj, cache>>
+NTraj == 2
 
 Atoms == 1..N
 Zero == <<"z", 0, 0>>
@@ -38,22 +43,26 @@ UPairs == {p \in Atoms \X Atoms : p[1] < p[2]}
 
 -----------------------------------------------------------------------------------------------
 (* REQUIREMENT: the matrices the statement asks for *)
-Source(s, p) == <<IF s.custom THEN "c" ELSE "r", UPair(p)[1], UPair(p)[2]>>
-ExpFull(s)   == [p \in OPairs |-> IF s.cls[UPair(p)] = "below" THEN Zero ELSE Source(s, p)]
-ExpMasked(s) == [p \in OPairs |-> IF p[1] \in s.mask \/ p[2] \in s.mask THEN Zero ELSE ExpFull(s)[p]]
+RegTag(tr) == IF tr = 1 THEN "r" ELSE "r2"
+SourceT(s, p, tr) == <<IF s.custom THEN "c" ELSE RegTag(tr), UPair(p)[1], UPair(p)[2]>>     \* the user matrix is the same for all trajectories
+ExpFullT(s, tr)   == [p \in OPairs |-> IF s.cls[UPair(p)] = "below" THEN Zero ELSE SourceT(s, p, tr)]
+ExpMaskedT(s, tr) == [p \in OPairs |-> IF p[1] \in s.mask \/ p[2] \in s.mask THEN Zero ELSE ExpFullT(s, tr)[p]]
+Source(s, p) == SourceT(s, p, 1)
+ExpFull(s)   == ExpFullT(s, 1)
+ExpMasked(s) == ExpMaskedT(s, 1)
 Symmetric(m) == \A p \in OPairs : m[p] = m[<<p[2], p[1]>>]
 (* the matrix a query at doubled time t2 must return; at t = slmEnd exactly the direct query is not
    decided by the statement, the step-level requirement below decides what matters *)
-DirectOK(s, t2, m) == /\ (t2 < 2 * s.slmEnd => m = ExpMasked(s))
-                      /\ (t2 > 2 * s.slmEnd => m = ExpFull(s))
-StepOK(s, a, b, m) == /\ (b <= s.slmEnd => m = ExpMasked(s))           \* step [a,b] entirely before the end
-                      /\ (a >= s.slmEnd => m = ExpFull(s))             \* entirely after
-                      /\ (m = ExpMasked(s) \/ m = ExpFull(s))          \* straddling: either
+DirectOK(s, tr, t2, m) == /\ (t2 < 2 * s.slmEnd => m = ExpMaskedT(s, tr))
+                          /\ (t2 > 2 * s.slmEnd => m = ExpFullT(s, tr))
+StepOK(s, tr, a, b, m) == /\ (b <= s.slmEnd => m = ExpMaskedT(s, tr))           \* step [a,b] entirely before the end
+                          /\ (a >= s.slmEnd => m = ExpFullT(s, tr))             \* entirely after
+                          /\ (m = ExpMaskedT(s, tr) \/ m = ExpFullT(s, tr))     \* straddling: either
 QueryInside(a, b, t2) == 2 * a <= t2 /\ t2 <= 2 * b
 
 -----------------------------------------------------------------------------------------------
 (* MECHANISM *)
-SrcMatrix(s) == [p \in OPairs |-> Source(s, p)]                          \* custom matrix if given else trajectory matrix [0]
+SrcMatrix(s, tr) == [p \in OPairs |-> SourceT(s, p, tr)]                 \* custom matrix if given else THIS trajectory's matrix [0]
 Cutoff(s, m) == [p \in OPairs |-> IF s.cls[UPair(p)] = "below" \/ (Variant = "cut_le" /\ s.cls[UPair(p)] = "equal") THEN Zero ELSE m[p]]     \* m[abs(m) < cutoff] = 0.0
 RowZero(m, a) == [p \in OPairs |-> IF p[1] = a THEN Zero ELSE m[p]]    \* masked[target] = 0.0
 ColZero(m, a) == [p \in OPairs |-> IF p[2] = a THEN Zero ELSE m[p]]    \* masked[:, target] = 0.0
@@ -67,28 +76,36 @@ StepQuery2(s, i) ==                                                      \* doub
 
 NoScenario == [custom |-> FALSE, htype |-> "ising", cls |-> <<>>, mask |-> {}, slmEnd |-> 0, T |-> <<0, 1>>, backend |-> "sv"]
 NoMatrix == [p \in OPairs |-> Zero]
-Init == sc = NoScenario /\ pc = "pick" /\ full = NoMatrix /\ masked = NoMatrix /\ k = 0 /\ used = NoMatrix /\ tq2 = 0
-Pick == /\ pc = "pick" /\ sc' \in Scenarios /\ pc' = "source" /\ UNCHANGED <<full, masked, k, used, tq2>>
-TakeSource == /\ pc = "source" /\ full' = SrcMatrix(sc) /\ pc' = "cutoff" /\ UNCHANGED <<sc, masked, k, used, tq2>>
-ApplyCutoff == /\ pc = "cutoff" /\ full' = Cutoff(sc, full) /\ pc' = "mask" /\ UNCHANGED <<sc, masked, k, used, tq2>>
-ApplyMask == /\ pc = "mask" /\ masked' = MaskAll(full, sc.mask) /\ pc' = "run" /\ k' = 1 /\ UNCHANGED <<sc, full, used, tq2>>
+Init == sc = NoScenario /\ pc = "pick" /\ full = NoMatrix /\ masked = NoMatrix /\ k = 0 /\ used = NoMatrix /\ tq2 = 0 /\ traj = 1 /\ cache = NoMatrix
+Pick == /\ pc = "pick" /\ sc' \in Scenarios /\ pc' = "source" /\ UNCHANGED <<full, masked, k, used, tq2, traj, cache>>
+TakeSource == /\ pc = "source"
+              /\ LET own == SrcMatrix(sc, traj)
+                     m == IF Variant = "cache_first" /\ ~sc.custom /\ cache # NoMatrix THEN cache ELSE own IN
+                 /\ full' = m
+                 /\ cache' = (IF Variant = "cache_first" /\ ~sc.custom /\ cache = NoMatrix THEN own ELSE cache)
+              /\ pc' = "cutoff" /\ UNCHANGED <<sc, masked, k, used, tq2, traj>>
+ApplyCutoff == /\ pc = "cutoff" /\ full' = Cutoff(sc, full) /\ pc' = "mask" /\ UNCHANGED <<sc, masked, k, used, tq2, traj, cache>>
+ApplyMask == /\ pc = "mask" /\ masked' = MaskAll(full, sc.mask) /\ pc' = "run" /\ k' = 1 /\ UNCHANGED <<sc, full, used, tq2, traj, cache>>
 Step == /\ pc = "run" /\ k < Len(sc.T)
         /\ tq2' = StepQuery2(sc, k)
         /\ used' = Callable(sc, full, masked, StepQuery2(sc, k))
-        /\ pc' = "stepped" /\ UNCHANGED <<sc, full, masked, k>>
-Advance == /\ pc = "stepped" /\ k' = k + 1 /\ pc' = (IF k + 1 < Len(sc.T) THEN "run" ELSE "done") /\ UNCHANGED <<sc, full, masked, used, tq2>>
-Next == Pick \/ TakeSource \/ ApplyCutoff \/ ApplyMask \/ Step \/ Advance
+        /\ pc' = "stepped" /\ UNCHANGED <<sc, full, masked, k, traj, cache>>
+Advance == /\ pc = "stepped" /\ k' = k + 1 /\ pc' = (IF k + 1 < Len(sc.T) THEN "run" ELSE "done") /\ UNCHANGED <<sc, full, masked, used, tq2, traj, cache>>
+\* the next noise trajectory of the same run: get_sequences builds its matrices afresh
+NextTrajectory == /\ pc = "done" /\ traj < NTraj /\ traj' = traj + 1 /\ pc' = "source" /\ k' = 0
+                  /\ UNCHANGED <<sc, full, masked, used, tq2, cache>>
+Next == Pick \/ TakeSource \/ ApplyCutoff \/ ApplyMask \/ Step \/ Advance \/ NextTrajectory
 Spec == Init /\ [][Next]_vars
 
 -----------------------------------------------------------------------------------------------
 Built == pc \in {"run", "stepped", "done"}
 InvSymmetric   == Built => Symmetric(full) /\ Symmetric(masked)
-InvFullMatrix  == Built => full = ExpFull(sc)                         \* source and cutoff
-InvMaskedMatrix == Built => masked = ExpMasked(sc)
-InvDirect      == Built => \A t2 \in 0..(2 * sc.T[Len(sc.T)] + 2) : DirectOK(sc, t2, Callable(sc, full, masked, t2))
+InvFullMatrix  == Built => full = ExpFullT(sc, traj)                  \* source (of THIS trajectory) and cutoff
+InvMaskedMatrix == Built => masked = ExpMaskedT(sc, traj)
+InvDirect      == Built => \A t2 \in 0..(2 * sc.T[Len(sc.T)] + 2) : DirectOK(sc, traj, t2, Callable(sc, full, masked, t2))
 InvQueryInside == pc = "stepped" => QueryInside(sc.T[k], sc.T[k + 1], tq2)
-InvStepMatrix  == pc = "stepped" => StepOK(sc, sc.T[k], sc.T[k + 1], used)
+InvStepMatrix  == pc = "stepped" => StepOK(sc, traj, sc.T[k], sc.T[k + 1], used)
 UsedName(s, m) == IF m = ExpMasked(s) /\ m = ExpFull(s) THEN "both" ELSE IF m = ExpMasked(s) THEN "masked" ELSE IF m = ExpFull(s) THEN "full" ELSE "other"
-Log == (pc = "stepped" /\ LogResult) =>
+Log == (pc = "stepped" /\ LogResult /\ traj = 1) =>
          PrintT(<<"I", sc.custom, sc.htype, sc.cls, sc.mask, sc.slmEnd, sc.backend, sc.T, k, tq2, UsedName(sc, used), ExpFull(sc), ExpMasked(sc)>>)
 ====
